@@ -99,6 +99,11 @@ inductive Op (α : Type) where
   | consume
   | query
   | reopen
+  /-- the process is killed (SIGKILL: no Close) and the queue is opened again. Durable at
+  that moment is exactly what the last ACKNOWLEDGED operation left in Bolt: the bucket
+  (`items`) and `max_key` (`highest`) — both are written in the same Bolt transaction as an
+  accepted enqueue, before it is acknowledged; the cursor and the pre-loaded head are not. -/
+  | kill
 deriving Repr, DecidableEq
 
 def stepOp (q : Q α) : Op α → Q α × Option (Item α)
@@ -107,6 +112,7 @@ def stepOp (q : Q α) : Op α → Q α × Option (Item α)
   | .consume => consume q
   | .query => (q, none)
   | .reopen => (reopen q, none)
+  | .kill => (reopen q, none)
 
 /-- state after a sequence of operations -/
 def runQ (q : Q α) : List (Op α) → Q α
@@ -165,7 +171,7 @@ def step (d : DState) (line : String) : DState × String :=
     | (q', none) => ({ q := q' }, "none")
   | ["query"] => (d, queryStr d.q)
   | ["reopen"] => ({ q := reopen d.q }, "ok")
-  | ["kill"] => ({ q := reopen d.q }, "ok")
+  | ["kill"] => ({ q := (stepOp d.q .kill).1 }, "ok")
   | _ => (d, "bad-op")
 
 end RqModel.Fifo
